@@ -10,6 +10,7 @@
 (*   {"e":"write","p":name,"off":n,"d":[bytes]}                            *)
 (*   {"e":"ftruncate","p":name,"len":n} {"e":"fsync","p":name}             *)
 (*   {"e":"fsyncdir"} {"e":"rename","p":a,"q":b} {"e":"unlink","p":a}      *)
+(*   {"e":"newrun"}   a fresh directory and store (several runs per trace) *)
 (* The calls are replayed on FsModel.  At every point from the begin mark  *)
 (* of a save to just after its end mark, the images a process crash and a  *)
 (* power loss can leave are emitted together with the set of values the    *)
@@ -23,8 +24,8 @@ EXTENDS FsModel, Json, IOUtils
 
 Rec == ndJsonDeserialize(IOEnv.TRACE)
 
-VARIABLES l, fs, saved, prev, cur, phase
-vars == <<l, fs, saved, prev, cur, phase>>
+VARIABLES l, fs, saved, prev, cur, phase, rn
+vars == <<l, fs, saved, prev, cur, phase, rn>>
 
 Apply(f, r) ==
   CASE r.e = "open"      -> FsOpen(f, r.p, r.creat, r.trunc)
@@ -36,14 +37,17 @@ Apply(f, r) ==
     [] r.e = "unlink"    -> FsUnlink(f, r.p)
     [] OTHER             -> f
 
-Init == l = 0 /\ fs = EmptyFs /\ saved = 0 /\ prev = 0 /\ cur = 0 /\ phase = "idle"
+Init == l = 0 /\ fs = EmptyFs /\ saved = 0 /\ prev = 0 /\ cur = 0 /\ phase = "idle" /\ rn = 0
 
 Next ==
   /\ l < Len(Rec)
   /\ l' = l + 1
   /\ LET r == Rec[l + 1] IN
-       /\ fs' = Apply(fs, r)
-       /\ IF r.e = "mark" /\ r.w = "begin"
+       /\ fs' = (IF r.e = "newrun" THEN EmptyFs ELSE Apply(fs, r))
+       /\ rn' = (IF r.e = "newrun" THEN rn + 1 ELSE rn)
+       /\ IF r.e = "newrun"
+          THEN saved' = 0 /\ prev' = 0 /\ cur' = 0 /\ phase' = "idle"
+          ELSE IF r.e = "mark" /\ r.w = "begin"
           THEN cur' = r.v /\ phase' = "during" /\ UNCHANGED <<saved, prev>>
           ELSE IF r.e = "mark" /\ r.w = "end"
           THEN cur' = 0 /\ saved' = cur /\ prev' = saved /\ phase' = "after"
@@ -58,12 +62,14 @@ ImgJson(img) == [n \in DOMAIN img |-> img[n]]
 
 Emit ==
   (phase \in {"during", "after"}) =>
-     /\ PrintT(<<"IMAGE", ToJson([at |-> l, kind |-> "process", phase |-> phase,
+     /\ PrintT(<<"IMAGE", ToJson([at |-> l, run |-> rn, op |-> IF phase = "during" THEN cur ELSE saved,
+                                  kind |-> "process", phase |-> phase,
                                   allowed |-> IF phase = "during" THEN {saved, cur} ELSE {saved},
                                   strict |-> TRUE,
                                   img |-> ImgJson(ProcImage(fs))])>>)
      /\ \A img \in PowerImages(fs) :
-          PrintT(<<"IMAGE", ToJson([at |-> l, kind |-> "power", phase |-> phase,
+          PrintT(<<"IMAGE", ToJson([at |-> l, run |-> rn, op |-> IF phase = "during" THEN cur ELSE saved,
+                                    kind |-> "power", phase |-> phase,
                                     allowed |-> IF phase = "during" THEN {saved, cur} ELSE {prev, saved},
                                     strict |-> (img = StrictPowerImage(fs)),
                                     img |-> ImgJson(img)])>>)
